@@ -210,12 +210,12 @@ Section Wrap.
     blen all - pos < N.of_nat fuel -> li_loop fuel o all pos doff dsize acc <> Err EFuel.
   Proof.
     induction fuel as [|f IH]; intros o all pos doff dsize acc Hf; [lia|].
-    cbn [li_loop]. destruct (read_uv (drop pos all)) as [slen r n| | | |] eqn:Eu; try discriminate.
+    cbn [li_loop]. destruct (negb (dsize =? 0) && (dsize <=? pos - doff)); [discriminate|].
+    destruct (read_uv (drop pos all)) as [slen r n| | | |] eqn:Eu; try discriminate.
     destruct (slen =? 0); [destruct (x_zeof o); discriminate|].
     destruct (cid_from_reader (drop (pos + n) all)) as [cn c p r2| |k]; try discriminate.
     destruct (_ && (x_maxcid o <? cn)); [discriminate|].
     destruct (negb (seek_ok o (pos + n + slen))); [discriminate|].
-    destruct (_ && _); [discriminate|].
     apply IH. unfold read_uv in Eu. apply read_uv_f_ok_used in Eu. destruct Eu as [Hn Hne].
     assert (pos < blen all).
     { destruct (N.lt_ge_cases pos (blen all)) as [H|H]; [exact H|].
